@@ -189,6 +189,14 @@ impl Property for C13 {
                     prog.items[at] = Item::Data { width, elems };
                     kind = "undefined-symbol";
                 } else {
+                    // v2: a built-in function that rejects an argument written on the NEXT line of the call:
+                    // the error belongs to the argument's line
+                    if crate::engine::gen_version() >= 2 && t.chance(1, 6) {
+                        let txt = *t.pick(&["#d8 strlen(\n    5)", "#d8 le(\n    5)", "#d16 utf16le(\n    0x41)", "#d8 sizeof(\n    7)", "#d8 1 + strlen(\n    0x2)"]);
+                        prog.items[at] = Item::Raw(txt.to_string());
+                        fault_line_offset = 1;
+                        kind = "builtin-rejects-argument-on-next-line";
+                    } else {
                     let v2_extra: &[(&str, &'static str)] = &[
                         ("#d8", "malformed-directive:missing-operand*"),
                         ("#d", "malformed-directive:missing-operand*"),
@@ -206,6 +214,7 @@ impl Property for C13 {
                     ]) };
                     prog.items[at] = Item::Raw(txt.to_string());
                     kind = k;
+                    }
                 }
             }
             Item::BankDef(b) => {
@@ -234,7 +243,7 @@ impl Property for C13 {
         }
         ctx.label(format!("fault:{}", kind));
         // the language rules must reject exactly that item (malformed directives are not modelled: syntax errors)
-        if !kind.starts_with("malformed-directive") {
+        if !kind.starts_with("malformed-directive") && kind != "builtin-rejects-argument-on-next-line" {
             match refasm::assemble(&prog) {
                 RefResult::Reject { item, .. } if item == fault_item => {}
                 _ => {
@@ -294,7 +303,13 @@ impl Property for C13 {
                 return Verdict::fail(format!("B|{}|fault-not-reported", kind), format!("a {} fault was injected, assembler: {}", kind, other.brief()));
             }
         };
-        let first = msgs.iter().find(|m| m.kind == 'E').unwrap();
+        let mut first = msgs.iter().find(|m| m.kind == 'E').unwrap();
+        if kind == "builtin-rejects-argument-on-next-line" {
+            // the outer message covers the whole two-line element; the message that names the cause is the innermost one
+            while let Some(i) = first.inner.first() {
+                first = i;
+            }
+        }
         let place = match (&first.file, first.loc) {
             (Some(f), Some((a, _))) => {
                 let text = r.files.iter().find(|x| &x.0 == f).map(|x| x.1.clone()).unwrap_or_default();
